@@ -20,7 +20,7 @@ THOROUGH = [
     ("len6-one-group", dict(MaxLen=6, Switches=0, Free="FALSE", Prelude="FALSE")),
     ("len5-interleaved", dict(MaxLen=5, Switches=9, Free="FALSE", Prelude="FALSE")),
     ("len4-interleaved-free", dict(MaxLen=4, Switches=9, Free="TRUE", Prelude="FALSE")),
-    ("prelude+4-one-switch", dict(MaxLen=4, Switches=1, Free="FALSE", Prelude="TRUE")),
+    ("prelude+4-one-group", dict(MaxLen=4, Switches=0, Free="FALSE", Prelude="TRUE")),
     ("prelude+3-interleaved-free", dict(MaxLen=3, Switches=9, Free="TRUE", Prelude="TRUE")),
 ]
 NPARTS = 6           # replay processes / trace files / concurrent trace JVMs
@@ -90,6 +90,8 @@ def run(c):
             if not got:
                 raise vcheck.InfraError("CApiModel[%s] exported no history" % label)
             c.note("model run %s: %d maximal histories" % (label, len(got)))
+            c.models[-1].pop("printed", None)          # the exported histories do not belong in the evidence file
+            c.models[-1].update(label=label, sequences=len(got))
             seqs += got
         return seqs
 
